@@ -187,7 +187,7 @@ impl Prop for C15 {
         if c.hash_seed != 0 { out.push(DictCase { hash_seed: 0, ..c.clone() }); }
         out
     }
-    fn rule(&self) -> String { "A case is two independent histories of encode / dictionary-encode / invalid-decode / quoted-encode / add-quad / create-graph / seed operations growing two databases (one with shifted identifiers so ids clash), with the bijection invariants checked after every step, followed by union of the two and comparison of lexical quads, graph identities, quoted terms and seeds with the model union. Non-trivial = both operands hold quads; distinct = hash of both histories.".into() }
+    fn rule(&self) -> String { "A case is two independent histories of encode / dictionary-encode / invalid-decode / quoted-encode / add-quad / create-graph / seed operations growing two databases (one with shifted identifiers so ids clash), with the bijection invariants checked after every step, followed by union of the two and comparison of lexical quads, graph identities, quoted terms and seeds with the model union. Non-trivial = both operands hold quads; distinct = hash of both histories. Quoted triples may nest a quoted triple in predicate position; one case in six gives both databases identical plain-term dictionaries and different quoted stores; after an exhaustion refusal the refused term is offered again.".into() }
     fn assumptions(&self) -> Vec<String> { vec!["terms are generated so that Kolibrie's storage convention cannot confuse kinds (IRIs absolute, plain literals v<n>, one escaped literal family)".into(), "no fault or scheduling dimension; hash seed is the only nondeterminism (weak fit)".into()] }
     fn real_vs_stub(&self) -> serde_json::Value { serde_json::json!({"real": ["shared::dictionary::Dictionary", "shared::quoted_triple_store::QuotedTripleStore", "SparqlDatabase::{encode_term_star, decode_any, union, add_quad}"], "simulated": ["hash keys"], "not_run": []}) }
 }
